@@ -66,9 +66,9 @@ func parseNumber(input []byte) (int, bool) {
 		if s[0] == '+' || s[0] == '-' {
 			s = s[1:]
 			n++
-			if len(s) == 0 {
-				return 0, false
-			}
+		}
+		if len(s) == 0 || s[0] < '0' || '9' < s[0] {
+			return 0, false
 		}
 		for len(s) > 0 && '0' <= s[0] && s[0] <= '9' {
 			s = s[1:]
@@ -157,9 +157,9 @@ func parseNumberParts(input []byte) (numberParts, bool) {
 		if s[0] == '+' || s[0] == '-' {
 			s = s[1:]
 			n++
-			if len(s) == 0 {
-				return numberParts{}, false
-			}
+		}
+		if len(s) == 0 || s[0] < '0' || '9' < s[0] {
+			return numberParts{}, false
 		}
 		for len(s) > 0 && '0' <= s[0] && s[0] <= '9' {
 			s = s[1:]
